@@ -64,7 +64,10 @@ def scenes(draw, k):
     for _ in range(nb - 2):
       p.append({'pos': draw(modelgen.vec3(-0.6, 0.6)), 'quat': draw(modelgen.unit_quat(identity_p=0.1))})
     poses.append(p)
-  return {'bodies': bodies, 'plane': plane, 'poses': poses, 'elasticity_path': draw(st.sampled_from(['numeric', 'tuple', 'tuple_partial']))}
+  return {'bodies': bodies, 'plane': plane, 'poses': poses, 'elasticity_path': draw(st.sampled_from(['numeric', 'tuple', 'tuple_partial'])),
+          # the geoms' local poses reach the System either through the document or through sys.replace(geom_pos=, geom_quat=)
+          # on a System loaded from a document with other local poses (what domain randomisation of geometry does)
+          'replace_local': draw(st.booleans())}
 
 
 def fmt(v):
@@ -163,9 +166,22 @@ def check(sc, ctx=None):
   m = phys.mods()
   jax, jp = m['jax'], m['jp']
   from brax.base import Transform
-  xml, eff = scene_xml(sc)
-  phys.load_mj(xml)
-  sys = phys.load_brax(xml)
+  if sc.get('replace_local'):
+    import copy
+    doc = copy.deepcopy(sc)
+    for b in doc['bodies']:
+      for g in b:
+        g['pos'], g['quat'] = [-float(x) for x in g['pos']], [1.0, 0.0, 0.0, 0.0]
+    xml, eff = scene_xml(doc)
+    phys.load_mj(xml)
+    sys = phys.load_brax(xml)
+    gp = np.array([np.asarray(sys.geom_pos[0])] + [g['pos'] for b in sc['bodies'] for g in b], float)
+    gq = np.array([np.asarray(sys.geom_quat[0])] + [g['quat'] for b in sc['bodies'] for g in b], float)
+    sys = sys.replace(geom_pos=jp.array(gp), geom_quat=jp.array(gq))
+  else:
+    xml, eff = scene_xml(sc)
+    phys.load_mj(xml)
+    sys = phys.load_brax(xml)
   k = len(sc['poses'])
   lps, lqs = zip(*[resolve_poses(sc, p) for p in sc['poses']])
   lps, lqs = np.array(lps), np.array(lqs)
@@ -289,6 +305,7 @@ def check(sc, ctx=None):
     for n, v in worst.items():
       ctx.residual(n, v)
   labels.append('elasticity:' + sc['elasticity_path'])
+  labels.append('local_pose:via_sys_replace' if sc.get('replace_local') else 'local_pose:via_document')
   return dict(fps=fps, labels=labels,
               sample={'bodies': [[{kk: g[kk] for kk in ('type', 'r', 'hl')} for g in b] for b in sc['bodies']],
                       'plane': sc['plane'], 'pose0': {'pos': lps[0].tolist(), 'quat': lqs[0].tolist()},
